@@ -57,12 +57,32 @@ def drive_and_judge(ctx, scs, shards):
     return s, nlines
 
 
+def rider_observed(ctx):
+    """'Each step sees every existing composed resource of this XR' while the XR controller runs as the XRD controller
+    wires it (definition.Reconciler.CompositeReconcilerOptions: which client - informer cache or live - the observer
+    gets), under informer-cache misses, mid-reconcile faults and environment steps: the Pipeline-mode behaviours of module
+    XRCompose (C01 / C03), judged by MonXRCompose's Observed.Complete.  Added after the seeded change C04-m6 was missed."""
+    from checks import xrcompose
+    sub = ctx.sub("xrcompose")
+    scs, st, tr = [], 0, 0
+    for name, n in ([("pipe_quick", 500)] if ctx.quick else [("pipe_thorough", 6000), ("pipe_quick", 3000)]):
+        mc = sub.model_check("MCXRCompose", "MCXRCompose_%s.cfg" % name, sub="mc_" + name, workers=8, timeout=1500)
+        scs += [{"id": "%s-%s-%07d" % (PID, name, i), "hist": h} for i, h in sub.sample_lines_stratified(mc["emitted_file"], n, mc["emitted"])]
+        st += mc["states"]
+        tr += mc["transitions"]
+    s, n = xrcompose.drive_and_judge(sub, PID, scs, sweep=0, variants="rotate", shards=4 if ctx.quick else 10)
+    ctx.violations += sub.violations
+    return dict(states=st, transitions=tr, runs=s["runs"], events=n, formulas=xrcompose.FORMULAS[PID])
+
+
 def run(ctx):
     cfg = "MCPipeline_quick.cfg" if ctx.quick else "MCPipeline_thorough.cfg"
     mc = ctx.model_check("MCPipeline", cfg, workers=8 if ctx.quick else 16, timeout=300 if ctx.quick else 3000)
     scs = regression() + scenarios_from(mc["emitted_file"])
     s, nlines = drive_and_judge(ctx, scs, 6 if ctx.quick else 12)
+    ob = rider_observed(ctx)
     ctx.cov.update(dict(
+        observed_rider=ob,
         states=mc["states"], transitions=mc["transitions"], traces_validated_against_impl=s["vectors"],
         samples=(s.get("samples") or [])[:3], model_cfg=cfg, vectors_emitted=mc["emitted"], vectors_replayed=s["vectors"],
         per_family=s["families"], antecedent_hits=s["hits"], branch_hits=s.get("branches", {}), events=nlines, drift=0,
@@ -84,5 +104,9 @@ def run(ctx):
 def replay(ctx, path):
     with open(path) as f:
         sc = json.load(f)
+    if str(sc.get("id", "")).startswith(PID + "-pipe_"):      # a scenario of the observed-state rider
+        from checks import xrcompose
+        xrcompose.replay(ctx, PID, path)
+        return
     s, nlines = drive_and_judge(ctx, [sc], 1)
     ctx.cov.update(dict(states=1, transitions=1, traces_validated_against_impl=s["vectors"], samples=[sc], events=nlines))
